@@ -115,3 +115,19 @@ package codegen
 //@   shape s = "Unmarshal%s implements %s.Unmarshaler."
 //@   shape args = anyvals(2)
 //@   ensures [C01] every-line-is-a-comment: comment_only(emitted(e))
+
+// ---- one import per path (C01) -----------------------------------------------------
+// Two import lines for one path — even under different names — are the same
+// package imported twice; `import "x/yaml"` next to `import yaml "x/yaml"`
+// redeclares yaml and does not compile. The path alone is the key.
+//@ func (*Package).AddImport@dedup
+//@   props C01 C20
+//@   option verify-only
+//@   option noframe
+//@   shape p = new
+//@   shape p.Imports = imports() | imports(a:) | imports(a:x) | imports(b:;a:y)
+//@   shape qualifiedName = "a" | "c"
+//@   shape alias = "" | "x" | "z"
+//@   ensures [C01,C20] present-afterwards: imports_have(p.Imports, qualifiedName)
+//@   ensures [C01,C20] one-import-per-path: imports_count(p.Imports, qualifiedName) == 1
+//@   ensures [C01] others-kept: len(p.Imports) == old(len(p.Imports)) + (old(imports_have(p.Imports, qualifiedName)) ? 0 : 1)
